@@ -55,6 +55,19 @@ CLAIMED = {
  "C16": ("rapid clone/mutation histories with bitwise snapshots of every live value",
          "Model-based generated search: a value is cloned, then up to 20 mutations (ordinate and offset writes through the accessors, Push, Reverse, SetCoords, SetSRID, TransformInPlace, Swap, Reserve, further clones) hit a drawn member of the growing list of values; after each mutation every other value's bitwise snapshot must be unchanged, which also catches shared spare capacity.",
          "nil versus empty slices are not compared (not observable through the statement); offset writes are undone after the check because they make the value ill formed.", "DESIGN.md §4 C16"),
+
+ "C11": ("exhaustive 4x4-grid rings x points + rapid rings/polylines with metamorphic variants vs exact even-odd rule",
+         "All 1 114 112 (ring of 3-4 vertices, query point) cases of the 4x4 grid are enumerated on every run; generated rings up to 12 vertices on grids to 2^26 (self-intersecting, horizontal edges, repeated vertices, query points on vertices / edge midpoints / vertex levels) are checked together with their reversed, rotated, vertex-duplicated and extra-ordinate variants against the even-odd rule in exact integer arithmetic; IsOnLine / PointIntersectsLine on integer polylines and on ulp-nudged floats against an exact on-segment test.",
+         "Rings are closed and polylines have >= 2 coordinates, as the functions document; integer coordinates stay below 2^27 so the int64 oracle cannot overflow.", "DESIGN.md §4 C11"),
+ "C12": ("exhaustive grid segment pairs + rapid constructed configurations x 8 variants vs exact rational classification and point bound",
+         "Every ordered pair of non-degenerate segments of the 4x4 (thorough 5x5) grid and generated pairs built by construction in each configuration class (touching, T, collinear overlap/touch/disjoint, parallel, crossing, near-parallel) are evaluated in all 8 order/direction variants: type and point set must equal the exact rational answer, endpoint intersections must be bit-identical, overlaps must have the exact endpoints, proper crossings must lie within a forward error bound derived in exact arithmetic; float inputs a few ulps from those configurations check classification; the non-robust strategy must agree on HasIntersection.",
+         "The point bound is 16u x the magnitudes of the documented normalise + homogeneous-coordinate computation (measured error <= 0.04 x bound); the central-endpoint fall-back is accepted only within that bound of an envelope border; float inputs stay at moderate magnitudes.", "DESIGN.md §4 C12"),
+ "C14": ("rapid valid-by-construction polygons (holes, multi, directions, start vertices) vs exact rational centroids",
+         "Generated-input search with validity by construction (star-shaped shells verified with exact cross products, holes in disjoint cells inside the inscribed disc, members in disjoint boxes) and metamorphic decoration (direction, start vertex, duplicated and collinear vertices, all rings reversed): point, line and area centroids, the zero-area fall-back, the Centroid dispatch, IsRingCounterClockwise and SignedArea are compared with exact rational references under a derived forward error bound.",
+         "Only valid polygons, polylines of positive total length and non-empty point sets (documented preconditions / undefined means are not generated); tolerance = 8 x forward bound of the fan decomposition about the library's base point (measured error <= 0.04 x tolerance).", "DESIGN.md §4 C14"),
+ "C20": ("rapid coordinate sequences x thresholds vs exact rational point-segment distances; idempotence",
+         "Generated-input search over sequences of 0..200 points (walks, collinear runs, closed loops, repeats, zig-zags) and threshold classes: index list shape, the exact distance of every omitted point to the segment joining its retained neighbours, exactness at threshold 0, idempotence and input immutability.",
+         "Rounding slack thr*2^-30 + 2^-40*scale covers the library's own floating-point distance; integer grids up to 2^16.", "DESIGN.md §4 C20"),
 }
 PENDING_REASON = "check not built yet in this session (planned, see DESIGN.md §4); not claimed until its harness package exists"
 
